@@ -481,7 +481,7 @@ func evRun(e *Env) (map[string]int64, bool) {
 	}
 	var st map[string]int64
 	prev := -1
-	for round := 0; round < 10; round++ {
+	for round := 0; round < 400; round++ { // until a whole settle period brings no progress
 		settle := time.Duration(e.C.Settle)
 		if round == 0 && e.C.xBool("settle_elapsed") {
 			// processing-time windows advance one interval per tick and never catch up on ticks lost
